@@ -168,7 +168,7 @@ SCHEMA_SAFE = ['cat', 'stack', 'rowslice', 'rowslice-step', 'skipcomments', 'sel
                'selectrangeopenleft', 'selectrangeopenright', 'selectrangeopen', 'selectrangeclosed', 'selecttrue', 'selectfalse',
                'selectnone', 'selectnotnone', 'selectusingcontext', 'rowlenselect', 'filldown', 'filldown-field', 'fillright', 'fillleft',
                'wrap', 'cache', 'cache-n2', 'progress', 'log_progress', 'clock', 'sub', 'search', 'search-all', 'searchcomplement',
-               'replace', 'replaceall', 'update', 'convert-where', 'convert-passrow', 'annex1', 'addfield', 'extendheader',
+               'replace', 'replaceall', 'update', 'convert-where', 'convert-passrow', 'addfield', 'extendheader',
                'addfieldusingcontext', 'head']
 # entries that are not pipeline constructors although they return views: the catalogue builder itself materialises
 # (fromcolumns(columns(...))), or the function is documented to scan the values (facet returns a dict keyed by them)
@@ -220,7 +220,7 @@ def _apply_chain(chain, s):
     v = s
     for name in chain:
         v = C.by_name(name).build(v)
-        if name in ('annex1', 'addfield', 'extendheader', 'addfieldusingcontext'):
+        if name in ('addfield', 'extendheader', 'addfieldusingcontext'):
             v = petl.cut(v, 'f0', 'f1', 'f2')
     return v
 
@@ -279,9 +279,12 @@ def _judge_prefix(case, ctx, build, arity, stream, lookahead, e):
             return [primary]
         other = second()
         return [primary, other] if stream == 0 else [other, primary]
+    # a stage with one row of look-ahead needs its *input* to deliver one more row, which (behind a filter or a strided
+    # slice) can cost several source rows: the bound is the minimal prefix for k + look-ahead output rows
+    kk = k + lookahead
     m = None
-    for cand in range(k, SHORT + 1):
-        if len(_take(build(inputs(_prefix(cand))), k)) == k + 1:
+    for cand in range(kk, SHORT + 1):
+        if len(_take(build(inputs(_prefix(cand))), kk)) == kk + 1:
             m = cand
             break
     if m is None:
@@ -303,7 +306,7 @@ def _judge_prefix(case, ctx, build, arity, stream, lookahead, e):
         ctx.mark_nontrivial()
     if pulls[SHORT] != pulls[LONG]:
         return {'kind': 'pull-count-depends-on-source-length', 'k': k, 'pulls': pulls, 'minimal-prefix': m}
-    slack = 2 + lookahead
+    slack = 2
     if pulls[SHORT] > m + slack:
         return {'kind': 'pulled-more-than-k-plus-constant', 'k': k, 'pulls': pulls, 'minimal-prefix': m, 'slack': slack}
     return None
